@@ -36,6 +36,36 @@ def clone(n):
     return type(n)(**{f: clone(getattr(n, f)) for f in n._fields if hasattr(n, f)})
 
 
+def operator_form(n):
+    """The function forms of the operators are the operators: operator.add(a, b) is a + b, ... -> rewritten node or None."""
+    if not isinstance(n, ast.Call) or n.keywords:
+        return None
+    fq = U(n.func)
+    if not fq.startswith("operator."):
+        return None
+    nm = fq[len("operator."):].strip("_")
+    nm = nm[1:] if nm.startswith("i") and nm[1:] in ("add", "sub", "mul", "truediv", "pow", "matmul") else nm
+    bins = {"add": ast.Add, "sub": ast.Sub, "mul": ast.Mult, "truediv": ast.Div, "pow": ast.Pow, "matmul": ast.MatMult, "mod": ast.Mod}
+    cmps = {"lt": ast.Lt, "le": ast.LtE, "eq": ast.Eq, "ne": ast.NotEq}
+    if nm in bins and len(n.args) == 2:
+        return ast.BinOp(n.args[0], bins[nm](), n.args[1])
+    if nm in cmps and len(n.args) == 2:
+        return ast.Compare(n.args[0], [cmps[nm]()], [n.args[1]])
+    if nm in ("gt", "ge") and len(n.args) == 2:
+        return ast.Compare(n.args[1], [ast.Lt() if nm == "gt" else ast.LtE()], [n.args[0]])
+    if nm == "neg" and len(n.args) == 1:
+        return ast.UnaryOp(ast.USub(), n.args[0])
+    if nm == "pos" and len(n.args) == 1:
+        return n.args[0]
+    return None
+
+
+class OperatorForms(ast.NodeTransformer):
+    def visit_Call(self, n):
+        n = self.generic_visit(n)
+        return operator_form(n) or n
+
+
 class Canon(ast.NodeTransformer):
     """env: Name -> replacement expression.  Also a > b => b < a, abs => sympy.Abs, alias.X => sympy.X / ca.X."""
 
@@ -60,6 +90,9 @@ class Canon(ast.NodeTransformer):
         n = self.generic_visit(n)
         if isinstance(n.func, ast.Name) and n.func.id == "abs" and len(n.args) == 1:
             n = ast.Call(ast.Attribute(ast.Name("sympy", ast.Load()), "Abs", ast.Load()), n.args, [])
+        r_ = operator_form(n)
+        if r_ is not None:
+            return r_
         for h in self.hooks:
             r = h(n)
             if r is not None:
@@ -286,6 +319,7 @@ def is_name(n, s):
 
 def verdict(cx, rule, inst, table_row, expr, node, extra=""):
     """Look one canonical return expression up in its row: accepted -> ok, known wrong -> fail, else fail / incomplete."""
+    expr = OperatorForms().visit(clone(expr))
     d, txt = D(expr), U(expr)
     if d in table_row["ok"]:
         cx.rep.ok(rule, inst, fact={"returns": txt, "reason": table_row["why"]})
